@@ -230,6 +230,12 @@ class C01(Check):
         for t in ("translation", "similarity", "affine", "tps"):
             for order in (0, 1):
                 out.append(("warp_to_shape", t, order))
+        # pure translations whose sampled window stays inside the source: integer, fraction below and above one half,
+        # negative fraction (each rounds differently under floor / truncation / round-to-nearest)
+        for shift in ((1.0, 2.0), (1.3, 2.4), (2.6, 1.7), (0.6, 0.7)):
+            out.append(("warp_window", shift, 1))
+        out.append(("warp_window", (2.6, 1.7), 0))
+        out.append(("tac", "shift-frac", True))
         for t in ("translation", "similarity", "affine", "tps", "pwa"):
             out.append(("warp_to_mask", t, 1))
         out.append(("warp_to_mask", "pwa", 0))
@@ -253,6 +259,8 @@ class C01(Check):
         S = np.array(img.shape, dtype=float)
         if op[0] == "crop":
             return bool(np.all(np.ceil(np.minimum(op[2], S)) - np.floor(np.maximum(op[1], 0)) >= 2))
+        if op[0] == "warp_window":
+            return bool(np.all(S >= 6))
         if op[0] == "warp_to_mask" and op[1] == "pwa":
             # every landmark must lie inside the piecewise-affine target domain (inner quadrilateral of the image)
             lms = np.vstack([img.landmarks[g].points for g in img.landmarks])
@@ -393,9 +401,15 @@ class C01(Check):
                 "shear": lambda: mt.Affine.init_from_2d_shear(12, -8),
                 "nus": lambda: mt.NonUniformScale([1.4, 0.8]),
                 "rot": lambda: mt.Rotation.init_from_2d_ccw_angle(-20),
+                "shift-frac": lambda: mt.Translation(np.array([-0.6, -0.7])),
                 "sim": lambda: mt.Similarity(np.array([[0.9 * np.cos(0.3), -0.9 * np.sin(0.3), 0], [0.9 * np.sin(0.3), 0.9 * np.cos(0.3), 0], [0, 0, 1.0]])),
             }[op[1]]()
             return unpack(img.transform_about_centre(t, retain_shape=op[2], **kw)) + (meta,)
+        if k == "warp_window":
+            tpl = tuple(int(s) - 3 for s in img.shape)
+            okw = {} if isinstance(img, BooleanImage) else {"order": op[2]}
+            meta["order"] = op[2]
+            return unpack(img.warp_to_shape(tpl, mt.Translation(np.array(op[1])), warp_landmarks=True, **okw, **kw)) + (meta,)
         if k == "warp_to_shape":
             nd = img.n_dims
             tpl = tuple(int(s) + (1 if i == 0 else -1) for i, s in enumerate(img.shape))
